@@ -18,6 +18,7 @@ import (
 
 	"verif/enum"
 	"verif/mc/bfs"
+	"verif/mc/purity"
 	rc "verif/ref/refcrypto"
 	"verif/vf"
 )
@@ -37,6 +38,23 @@ func run(c *vf.Ctx) {
 	ntAndUTF16(c)
 	lmHash(c)
 	dccAll(c)
+	histories(c)
+}
+
+// histories: the hash functions are pure; explore all ordered pairs of calls (verif/mc/purity):
+// results must not depend on earlier calls, must not alias memory a later call reuses, and must be
+// the caller's own (a caller wiping a returned hash must not poison later results).
+func histories(c *vf.Ctx) {
+	pw := [][]byte{[]byte(""), []byte("a"), []byte("PASSWORD"), []byte("Passw0rd!Passw0rd"), []byte("\U00010000é")}
+	purity.Check(c, "C01/history/lm.LMHash", "lm.LMHash", pw[:4], func(in []byte) [][]byte { return [][]byte{lm.LMHash(string(in))} })
+	purity.Check(c, "C01/history/lm.LMHashToHex", "lm.LMHashToHex", pw[:4], func(in []byte) [][]byte { return [][]byte{[]byte(lm.LMHashToHex(string(in)))} })
+	purity.Check(c, "C01/history/utf16.EncodeUTF16LE", "utf16.EncodeUTF16LE", pw, func(in []byte) [][]byte { return [][]byte{utf16.EncodeUTF16LE(string(in))} })
+	purity.Check(c, "C01/history/nt.NTHash", "nt.NTHash", pw, func(in []byte) [][]byte { h := nt.NTHash(string(in)); return [][]byte{h[:], []byte(nt.NTHashHex(string(in)))} })
+	purity.Check(c, "C01/history/md4.Sum", "md4.Sum", [][]byte{{}, enum.Counter(55, 1), enum.Counter(56, 1), enum.Counter(64, 1), enum.Counter(130, 1)}, func(in []byte) [][]byte { h := md4.Sum(in); return [][]byte{h[:]} })
+	purity.Check(c, "C01/history/dcc+dcc2", "DCC(password,user=Admin)/DCC2", pw, func(in []byte) [][]byte {
+		h := dcc.DCCHashFromPassword(string(in), "Admin")
+		return [][]byte{h[:], []byte(dcc.DCCHashFromPasswordToHashcatString(string(in), "Admin")), []byte(dcc2.DCC2Hash("Admin", string(in), 3))}
+	})
 }
 
 // ---------------------------------------------------------------- E2 on the real MD4 object
@@ -208,7 +226,8 @@ func oneShot(c *vf.Ctx) {
 
 // ---------------------------------------------------------------- NT / UTF-16LE
 
-var runeAlpha = []string{"a", "Z", "0", " ", "\x00", "é", "ß", "Σ", "я", "€", "￿", "\U00010428", "\U0001F600"}
+// includes both sides of every UTF-16 encoding boundary: U+D7FF/U+E000 (around the surrogate block), U+FFFF/U+10000/U+10001 (BMP edge), U+10FFFF (last code point)
+var runeAlpha = []string{"a", "Z", "0", " ", "\x00", "é", "ß", "Σ", "я", "€", "\ud7ff", "\ue000", "\uffff", "\U00010000", "\U00010001", "\U00010428", "\U0001F600", "\U0010FFFF"}
 
 func ntAndUTF16(c *vf.Ctx) {
 	ss := enum.Strings(runeAlpha, c.Pick(3, 4))
